@@ -53,8 +53,8 @@ Definition parse_line (l0 : str) : option pat :=
   if starts_with [35] l0 then None else
   let l1 := trim_end l0 in
   if is_empty l1 then None else
-  let '(neg, l2) := match l1 with 33 :: r => (true, r) | _ => (false, l1) end in
-  let '(anch, l3) := match l2 with 47 :: r => (true, r) | _ => (false, l2) end in
+  let '(neg, l2) := match l1 with c :: r => if c =? 33 then (true, r) else (false, l1) | [] => (false, l1) end in
+  let '(anch, l3) := match l2 with c :: r => if c =? 47 then (true, r) else (false, l2) | [] => (false, l2) end in
   let '(dir, l4) := if ends_with [47] l3 then (true, drop_last 1 l3) else (false, l3) in
   let cs := map parse_comp (split_byte 47 l4) in
   let cs1 := if anch || has_byte 47 l4 then cs
